@@ -59,7 +59,10 @@ REQUIRED_EULER = ["reorder_copies_agree", "M44_extractSHRTOrd", "M44_extractSHRT
                   "M44_extractSHRTOrd_XYZ", "roundTrip_of_principal", "M44_extractSHRTEuler_recompose_real",
                   "M44_extractSHRTOrd_recompose_real", "nonvacuity_shrt_W", "nonvacuity_principal_W", "nonvacuity_recompose_W_ZYX",
                   "M44_computeRSMatrix", "M44_computeRSMatrix_degenerate_B", "M44_computeRSMatrix_1_0_factors",
-                  "M44_extractSHRT_overloads_Exc", "M44_extractSHRT6_eq", "M44_extractSHRTExc", "cos_arctan_34", "sin_arctan_34"]
+                  "M44_extractSHRT_overloads_Exc", "M44_extractSHRT6_eq", "M44_extractSHRTExc", "cos_arctan_34", "sin_arctan_34",
+                  # FULL for all 24 orders (round trip = C11.toMatrix33_extract, Props/C11Round.lean)
+                  "eulerTrigSpec_to_C11", "sqrtSpec_to_C11", "roundTrip_all", "M44_extractSHRTEuler_recompose", "M44_extractSHRTOrd_recompose",
+                  "M44_extractSHRTEuler_total", "M44_extractSHRTEuler_recompose_R", "M44_extractSHRTOrd_recompose_R"]
 IDX_C12 = os.path.join(troute.GEN, "index_c12.txt")
 REQUIRED_LINK = ["extractEulerXYZ_unit", "extractEulerXYZ_copies_agree", "setEulerAngles_toMat", "rotH3_extractEulerXYZ",
                  "M44_extractSHRT_recompose", "M44_sansScaling_recompose", "M44_removeScaling_recompose",
@@ -394,8 +397,8 @@ def run(chk):
                        "effect of a positive tolerance, rounding, convergence of the sweeps, accuracy and procrustes (no model) are MEASURED (partial)",
                        "success of the SHRT extraction: with 1 < max it returns true exactly on non-singular linear parts (exact arithmetic); on "
                        "floats the overflow guards can reject nearly singular input, which is what the property allows",
-                       "the rOrder / Euler<T>& overloads of extractSHRT recompose through toMatrix44: FULL for XYZ; for the other 23 orders the Euler "
-                       "round trip toMatrix33 (extract R) = R of that order is a hypothesis (proved over the reals away from the order's gimbal lock)",
+                       "the rOrder / Euler<T>& overloads of extractSHRT recompose through toMatrix44: FULL for all 24 orders, gimbal lock included "
+                       "(the Euler round trip toMatrix33 (extract R) = R is C11.toMatrix33_extract, Props/C11Round.lean)",
                        "3-D extractSHRT/sansScaling/removeScaling recomposition: FULL (Props/C12Link.lean proves the Euler round trip "
                        "setEulerAngles (extractEulerXYZ R) = R for every rotation matrix, gimbal lock included, over any ordered field with "
                        "sqrt/sin/cos/atan2 satisfying SqrtSpec/EulerTrigSpec, which Real.sqrt/sin/cos and atan2 y x = arg (x+iy) do)",
